@@ -110,6 +110,7 @@ func (p *Program) Init(x *Exec, embeds map[string]string) (err error) {
 		}
 	}
 	undoActive = false
+	resetScheduler()
 	x.MaxSteps = 200_000_000
 	defer func() {
 		if r := recover(); r != nil {
